@@ -150,6 +150,9 @@ def cases_graphs(tier, seed):
     yield dict(kind='explicit', cells={'A1': '=SUM(B1:B2)+B1+SUM(B1:B2)', 'B1': '=C1', 'B2': '=C1+B1', 'C1': 1}, probes=['Sheet1!A1'], cyclic=[], values={'Sheet1!A1': 7})
     yield dict(kind='explicit', cells={'A1': '=IF(TRUE,1,A1)'}, probes=['Sheet1!A1'], cyclic=[], values={'Sheet1!A1': 1})
     yield dict(kind='explicit', cells={'A1': '=A1'}, probes=['Sheet1!A1'], cyclic=['Sheet1!A1'])
+    yield dict(kind='explicit', cells={'A1': '=IF(ISERROR(B1),0,B1)', 'B1': '=A1+1'}, probes=['Sheet1!A1', 'Sheet1!B1'], cyclic=['Sheet1!A1', 'Sheet1!B1'])
+    yield dict(kind='explicit', cells={'A1': '=IF(ISERR(SUM(B1:B3)),0,1)', 'B1': 1, 'B2': '=A1', 'B3': 2}, probes=['Sheet1!A1'], cyclic=['Sheet1!A1'])
+    yield dict(kind='explicit', cells={'A1': '=IF(ISERROR(B1),0,B1)', 'B1': '=1/0'}, probes=['Sheet1!A1'], cyclic=[], values={'Sheet1!A1': 0})
     yield dict(kind='explicit', cells={'A1': '=Data!A1+1', 'Data!A1': '=Sheet1!A1+1'}, probes=['Sheet1!A1', 'Data!A1'], cyclic=['Sheet1!A1', 'Data!A1'])
 
 
@@ -169,7 +172,7 @@ def cases_chains(tier, seed):
     for depth in (10, 18, 26, 40):
         for fail in ('unknown-function', 'cycle-at-end'):
             yield dict(kind='shared', depth=depth, fail=fail)
-    for link in ('if', 'if-else', 'not', 'and', 'sum', 'range'):
+    for link in ('if', 'if-else', 'not', 'and', 'sum', 'range', 'guarded', 'guarded-err', 'guarded-na'):
         for depth in (10, 20, 40):
             for fail in ('unknown-function', 'python-error', 'cycle-at-end'):
                 yield dict(kind='chain', depth=depth, fail=fail, link=link)
@@ -259,6 +262,8 @@ def oracle_chains(c):
     cells = {}
     link = {'plus': '=A{n}+1', 'if': '=IF(TRUE,A{n},0)', 'if-else': '=IF(1>2,0,A{n}+1)', 'not': '=NOT(A{n})', 'and': '=AND(TRUE,A{n})',
             'sum': '=SUM(A{n},1)', 'range': '=SUM(A{n}:A{n})+1',
+            # the everyday guard idioms: a failure (or a cycle) below is not an Excel error value and must not be answered by the guard
+            'guarded': '=IF(ISERROR(A{n}),0,A{n}+1)', 'guarded-err': '=IF(ISERR(A{n}),0,A{n}+1)', 'guarded-na': '=IF(ISNA(A{n}),0,A{n}+1)',
             # every level reads the level below twice (directly / through a second cell of its own level)
             'twice': '=A{n}+A{n}', 'diamond': '=A{n}+B{n}'}[c.get('link', 'plus')]
     for i in range(1, d + 1):
@@ -289,7 +294,7 @@ DRIVERS = [
            rule='every digraph on <= 3 cells and every digraph on 4 cells with <= 5 edges (self references, 2/3/4-cycles, every entry point, diamonds, repeated references), plus cycles closed through ranges / across sheets and an IF whose dead branch refers to itself; each evaluated in a child process with a 20 s / 3 GB limit',
            bound='<= 4 cells'),
     Driver('C06/B4.chains', cases_chains, oracle_chains, nchunks=8,
-           rule='dependency chains of depth 1..60 ending in an unknown function / a Python-level error / a cycle, failures half-way, and chains whose links go through IF / NOT / AND (lazy), SUM and one-cell ranges, and chains on which every level reads the level below twice (shared precedents): time and message size of the report', bound='depth <= 60'),
+           rule='dependency chains of depth 1..60 ending in an unknown function / a Python-level error / a cycle, failures half-way, and chains whose links go through IF / NOT / AND (lazy), SUM, one-cell ranges and the guard idioms IF(ISERROR(x),0,x) / ISERR / ISNA, and chains on which every level reads the level below twice (shared precedents): time and message size of the report', bound='depth <= 60'),
 ]
 
 
